@@ -9,6 +9,7 @@ mkdir -p .build/bin evidence replays
 .build/bin/vrewrite -repo /repo -rt "$PWD/rt" -hooks "$PWD/hooks" -out "$PWD/.build/warm" >/dev/null || exit 1
 for d in checks/*/; do
   id=$(basename "$d")
+  grep -qs "^package main" "$d"/*.go || continue   # helper packages are compiled with the checks that import them
   mode=$(cat "$d/MODE" 2>/dev/null || echo plain)
   case "$mode" in
     gosim) go build -tags verif -overlay .build/warm/overlay.json -o /dev/null "./$d" || exit 1 ;;
